@@ -219,26 +219,29 @@ type SpecExample struct {
 }
 
 var specCache []SpecExample
+var specOnce sync.Once
 
 func SpecExamples() []SpecExample {
-	if specCache != nil {
-		return specCache
-	}
-	b, err := os.ReadFile(filepath.Join(goldmarkDir(), "_test", "spec.json"))
-	if err != nil {
-		return nil
-	}
-	_ = json.Unmarshal(b, &specCache)
+	specOnce.Do(func() {
+		b, err := os.ReadFile(filepath.Join(goldmarkDir(), "_test", "spec.json"))
+		if err != nil {
+			return
+		}
+		_ = json.Unmarshal(b, &specCache)
+	})
 	return specCache
 }
 
 var corpusCache [][]byte
+var corpusOnce sync.Once
 
 // CorpusDocs: markdown sources of spec.json and of every _test/*.txt, extension/_test/*.txt case.
 func CorpusDocs() [][]byte {
-	if corpusCache != nil {
-		return corpusCache
-	}
+	corpusOnce.Do(loadCorpus)
+	return corpusCache
+}
+
+func loadCorpus() {
 	var docs [][]byte
 	for _, e := range SpecExamples() {
 		docs = append(docs, []byte(e.Markdown))
@@ -263,7 +266,6 @@ func CorpusDocs() [][]byte {
 		}
 	}
 	corpusCache = docs
-	return docs
 }
 
 // ---------- generators ----------
